@@ -65,6 +65,8 @@ Definition exn_of (e : Base.exn) : PyPrims.exn :=
   end.
 (* the model lifts every failure of a lookup table to IndexErr (model/Lookup.v says only that the call fails) *)
 Definition err_ok (pe : PyPrims.exn) (me : Base.exn) : Prop := me = IndexErr \/ pe = exn_of me.
+(* ... as it leaves a generator (iter_rows): a StopIteration would have become a RuntimeError (PEP 479) *)
+Definition err_ok_gen (pe : PyPrims.exn) (me : Base.exn) : Prop := exists e0, pe = gen_exn e0 /\ err_ok e0 me.
 
 (* ------------------------------------------------------------------ states *)
 Definition Rz (g : LookupDecoder SN) (m : sldec) : Prop :=
